@@ -382,12 +382,19 @@ def check_optimal_and_inline_pa(run, A):
                     oko = rows_ok and col.op == 'elem' and col.extra is L
     run.check(oko, 'R-SEL', 'optimal assignment: objective sum_k score[k, perm[k]] (row k -> column perm[k])', fn.loc(), '', 'objective is not the sum over rows k of score[k, permutation[k]]',
               construct=f'R-SEL::{q}::objective')
+    check_inline_pa(run, A)
+
+
+def check_inline_pa(run, A):
+    """the inline spatial / spectral alignment of the integration models' E-step: exhaustive strict arg-max over all class permutations of the
+    criterion evaluated on the very log-pdf that the returned posterior is built from, with the winning permutation"""
     q2 = MMU + 'log_pdf_to_affiliation_for_integration_models_with_inline_pa'
     check_exhaustive(run, A, q2, 'inline spatial/spectral alignment', {('spatial_log_pdf', -2)})
     fn2 = A.prog.func(q2)
     g2 = A.graphs.get(fn2)
     # the chosen permutation (and only it) permutes the spatial stream handed to the posterior
     calls = [e.term for e in g2.events if e.kind == 'call' and call_parts(e.term)[0] == MMU + 'log_pdf_to_affiliation']
+    arg_mus = [r['arg_mu'] for r in sel.exhaustive_searches(g2) if r['arg_mu'] is not None and sel.enumeration_domain(r['iter'])[0] is not None]
     okp = False
     for c in calls:
         lp = strip_views(call_arg(c, 1))
@@ -398,7 +405,8 @@ def check_optimal_and_inline_pa(run, A):
                     base, items = index_chain(sp)
                     if base.op == 'param' and base.args[0] == 'spatial_log_pdf' and len(items) == 3 and isinstance(items[1], T):
                         mid = strip_views(items[1])
-                        okp = mid.op == 'mu' or any(isinstance(x, T) and x.op == 'mu' for x in unwrap_gamma(mid))
+                        # exactly the loop-carried arg-max of the search (the loop variable itself is loop carried too: it holds the LAST candidate)
+                        okp = bool(arg_mus) and (mid in arg_mus or all(isinstance(x, T) and strip_views(x) in arg_mus for x in unwrap_gamma(mid)))
     run.check(okp, 'R-SEL', 'inline spatial/spectral alignment: posterior uses the best permutation found', fn2.loc(), '', 'the spatial stream is not indexed by the arg-max permutation',
               construct=f'R-SEL::{q2}::use-best')
     # the criterion is evaluated on the very log-pdf that is finally used: candidate(perm) and final(best) are the same expression
@@ -409,7 +417,11 @@ def check_optimal_and_inline_pa(run, A):
             if e.kind == 'call' and is_call_to(e.term, 'numpy.amax'):
                 cand = (call_arg(e.term, 0), L)
     final = strip_views(call_arg(calls[0], 1)) if calls else None
-    best_mus = [x for x in walk_terms(final) if x.op == 'mu'] if final is not None else []
+    best_mus = [x for x in walk_terms(final) if x.op == 'mu' and x in arg_mus] if final is not None else []
+    if cand is not None and final is not None and arg_mus and not best_mus:
+        run.violation('R-SEL', 'inline spatial/spectral alignment: the searched criterion and the final posterior use the same permuted log-pdf', fn2.loc(), 
+                      'the final log-pdf is not built with the arg-max permutation of the search at all', construct=f'R-SEL::{q2}::criterion-equals-use')
+        return
     if cand is None or final is None or not best_mus:
         raise AnalysisError(f'{q2}: the search criterion (maximum of the candidate log-pdf inside the permutation loop) or the final log-pdf handed to '
                             f'log_pdf_to_affiliation is no longer recognised')
